@@ -12,7 +12,8 @@ func init() {
 			"and back-dated records, admitted literal without listener (failure path of Proxy), and registrations on connecting transports (mock + real DTLS transport, Connect succeeds) " +
 			"whose sessions ingest itself hands to Proxy – per (policy, covert class, source) the evidence counts cases, successful Connects and observed Proxy runs. " +
 			"reloaddiff monitor: a case = (reload step of a configuration chain, covert): the reloaded manager's decision is compared with a manager freshly started from the new file; " +
-			"per (reload kind, covert class) the evidence counts decisions and decisions that changed across the reload",
+			"per (reload kind, covert class) the evidence counts decisions and decisions that changed across the reload. " +
+			"reloadrace monitor: a case = one distinguishing literal compared with a freshly started manager at a quiet point after a back-to-back pair of reloads under spinning checkers",
 		Assumptions: []string{
 			"policy entries are canonical CIDRs / valid regexps (malformed entries are C19's subject); no v4-mapped IPv6 CIDRs are generated",
 			"'inside a subnet' is judged on the address net.Dial connects to: v4-mapped literals are unmapped, zones are dropped",
